@@ -22,7 +22,8 @@
 EXTENDS Syntax, Json, IOUtils
 
 CONSTANTS Thorough,   \* FALSE: quick tier bounds
-          Den3        \* keep one of Den3 length-3 token sequences in the sampled part
+          Den3,       \* keep one of Den3 length-3 token sequences in the sampled part
+          DenA        \* quick tier: keep one of DenA applications of a three-child constructor to leaves
 
 VARIABLE st
 
@@ -107,12 +108,11 @@ TRepsUsed == IF Thorough THEN TReps ELSE QTReps
 Arity(f) == Len(f.sorts)
 EForms == ExprForms \cup StmtForms
 
-\* depth 2: children are leaves (quick: reduced leaf sets for the three-child forms)
+\* depth 2: children are leaves
 Pool1(f, sort) ==
-  LET small == ~Thorough /\ Arity(f) = 3 IN
-  CASE sort = "E" -> IF small THEN QLeaves ELSE ELeaves
-    [] sort = "S" -> IF small THEN QLeaves \cup QSLeaves ELSE ELeaves \cup SLeaves
-    [] sort = "T" -> IF small THEN QTReps ELSE TReps
+  CASE sort = "E" -> ELeaves
+    [] sort = "S" -> ELeaves \cup SLeaves
+    [] sort = "T" -> TReps
 \* restricted depth 3: children are the representatives
 Pool2(f, sort) ==
   CASE sort = "E" -> EReps
@@ -123,9 +123,16 @@ PoolT1(f, sort) == TLeaves
 PoolT2(f, sort) == TRepsUsed
 
 L0 == ELeaves \cup SLeaves \cup TLeaves \cup TReps \cup {ImportSelf}
+\* quick tier: the applications of three-child constructors to leaves are a seeded sample (the
+\* representatives are always kept, so that depth 3 is reached)
+LeafSeq == SetToSeq(L0)
+LeafIdx == [l \in L0 |-> CHOOSE i \in 1..Len(LeafSeq) : LeafSeq[i] = l]
+Keep1(n) == \/ Thorough \/ Len(n.cs) < 3 \/ n \in EReps \cup SReps
+            \/ (LeafIdx[n.cs[1]] * 7 + LeafIdx[n.cs[2]] * 13 + LeafIdx[n.cs[3]] * 31
+                 + LeafIdx[n.cs[1]] * LeafIdx[n.cs[3]] + Len(n.f.tpl) * 5 + Seed) % DenA = 0
 \* depth 2 (L1) = every constructor over the leaves, restricted depth 3 (L2) = every constructor over
 \* the representatives; both are enumerated by the actions below, never as one big set
-InL1(n) == /\ ~IsLeaf(n) /\ n.f \in EForms
+InL1(n) == /\ ~IsLeaf(n) /\ n.f \in EForms /\ Keep1(n)
            /\ \A i \in DOMAIN n.cs : n.cs[i] \in Pool1(n.f, n.f.sorts[i])
 
 (***************************************************************************)
@@ -170,7 +177,8 @@ Grow(a, FS, Pool(_, _)) ==
 
 ApplyConstructor ==
   /\ st.k = "ast" /\ IsLeaf(st.a)
-  /\ (Grow(st.a, EForms, Pool1) \/ Grow(st.a, TypeForms, PoolT1))
+  /\ \/ Grow(st.a, EForms, Pool1) /\ Keep1(st'.a)
+     \/ Grow(st.a, TypeForms, PoolT1)
 
 \* a representative that is a node is itself reached by ApplyConstructor from one of its leaves
 ApplyConstructorRep ==
@@ -212,7 +220,9 @@ OutcomeInv == /\ Admissible(Prediction) # {}
               /\ Admissible(Prediction) \subseteq Outcomes
               /\ \A o \in Admissible(Prediction) : OutcomeStep("Text", o)
               /\ ~OutcomeStep("Text", "Panic") /\ ~OutcomeStep("Text", "Abort")
-ContextInv == st.k = "start" =>
+\* (checked in one successor state rather than in the initial state: TLC evaluates the initial state on
+\* the JVM's main thread, whose stack is too small for the recursion over the longest context)
+ContextInv == (st.k = "toks" /\ st.ts = <<"(">>) =>
   /\ \A c \in Contexts \cup {TypeContext} :
         /\ Balanced(c.pre \o c.post)
         /\ \A i \in 1..Len(c.pre \o c.post) : KnownTok((c.pre \o c.post)[i])
